@@ -37,8 +37,23 @@ pub(crate) fn value_of_correct_type(
     arg_value: &Node<ast::Value>,
     var_defs: &[Node<ast::VariableDefinition>],
 ) {
-    let Some(type_definition) = schema.types.get(ty.inner_named_type()) else {
-        return;
+    // A built-in scalar that validation pruned (or has not inserted yet) is still that scalar:
+    // without this, `a: Int` with `Int` absent from the type map skips the check on the first
+    // validation and only reports the value on the next one.
+    let built_in;
+    let type_definition = match schema.types.get(ty.inner_named_type()) {
+        Some(def) => def,
+        None => match crate::schema::SchemaBuilder::built_in()
+            .schema
+            .types
+            .get(ty.inner_named_type())
+        {
+            Some(def @ schema::ExtendedType::Scalar(_)) => {
+                built_in = def.clone();
+                &built_in
+            }
+            _ => return,
+        },
     };
 
     match &**arg_value {
